@@ -88,12 +88,15 @@ def make_text(kind, used):
         return a * (2 * WIDTH + 1)
     if kind == "tagged":
         return "<b>" + a * WIDTH + "</b>"  # 8 visible columns, 15 characters with the tags
+    if kind == "custom":
+        # the same with a style the application registered on the formatter after it was constructed
+        return "<hl>" + a * WIDTH + "</hl>"
     raise ValueError(kind)
 
 
 def visible(line):
     """What a logical line shows: the only tag in the alphabet is <b>..</b> (known by construction)."""
-    return line.replace("<b>", "").replace("</b>", "")
+    return line.replace("<b>", "").replace("</b>", "").replace("<hl>", "").replace("</hl>", "")
 
 
 def _leaf(o):
@@ -201,6 +204,8 @@ class AnsiSpec(Base):
         st = State()
         st.stream = BufferedOutputStream()
         st.out = Output(st.stream, AnsiFormatter(forced=True))
+        from clikit.api.formatter import Style
+        st.out.formatter.add_style(Style("hl").bold())  # a custom style, added after construction (text kind "custom")
         st.secs = []
         st.model = []
         st.term = Term(WIDTH)
@@ -361,6 +366,7 @@ def main():
         runs.append(("ansi-3sections", AnsiSpec(3, CORE_KINDS), 7))
         runs.append(("ansi-2sections-extra", AnsiSpec(2, CORE_KINDS + [extra]), 7))
         runs.append(("ansi-2sections-indent3", AnsiSpec(2, CORE_KINDS, indent=3), 7))
+        runs.append(("ansi-2sections-custom-style", AnsiSpec(2, ["short", "wrap", "custom"]), 6))
         xdepth = 4
     else:
         # histories with <= 2 sections are a subset of this part (creating the third section is optional)
@@ -368,6 +374,8 @@ def main():
         runs.append(("ansi-2sections-extra", AnsiSpec(2, CORE_KINDS + [extra]), 5))
         # the output is indented when its sections are created: a line may wrap only because of the indentation
         runs.append(("ansi-2sections-indent3", AnsiSpec(2, CORE_KINDS, indent=3), 5))
+        # lines tagged with a style that was added to the formatter after its construction
+        runs.append(("ansi-2sections-custom-style", AnsiSpec(2, ["short", "wrap", "custom"]), 4))
         xdepth = 3
     runs.append(("plain-PlainFormatter", PlainSpec(3, CORE_KINDS + [extra], "plain"), 6))
     runs.append(("plain-NullFormatter", PlainSpec(3, CORE_KINDS, "null"), 6))
